@@ -14,7 +14,7 @@ import os
 import re
 import subprocess
 
-from vlib import exitkill, exitrefuse
+from vlib import exitkill, exitmixed, exitrefuse
 from vlib.common import HARNESS, LEAN_DIR, REPO, VERIF, hexs
 from vlib.seqrun import run_batch
 
@@ -125,6 +125,10 @@ def systematic_scenarios():
                         hosts = [mk_host(chan, ("exited", 0), dok) for _ in range(3)]
                         hosts[pos] = mk_host(chan, bad, dbad)
                         out.append({"S": S, "k": k, "fanout": fanout, "cmdtmo": 0, "hosts": hosts})
+        if S or k:      # ONE LINE LONGER THAN THE RELAY BUFFER (131072 bytes) in front of the marker line: the status survives it
+            for o in (("exited", 3), ("killed", 9)):
+                out.append({"S": S, "k": k, "fanout": 32, "cmdtmo": 0,
+                            "hosts": [mk_host("inband", o, 0, out=b"x" * 140000 + b"\n"), mk_host("exec", ("exited", 0))]})
         for a in SYS_OUTCOMES[1:]:          # one channel each
             out.append({"S": S, "k": k, "fanout": 32, "cmdtmo": 0, "hosts": [mk_host("inband", a), mk_host("exec", ("exited", 0))]})
             out.append({"S": S, "k": k, "fanout": 32, "cmdtmo": 0, "hosts": [mk_host("exec", a), mk_host("inband", ("exited", 0))]})
@@ -594,8 +598,12 @@ def run(ctx):
         ucmds = [u for u, _ in safe] + [b"cmd", b"ls -l /tmp", b"a;b", b"x" * 3000, b"q" + magic + b"1"] + \
                 [gen_text(rng, rng.randrange(1, 40), b"abc xyz;$?'\"|&01") for _ in range(10 if ctx.quick() else 300)]
         cops = ["cmd %d %d %s" % (S, k, hexs(u)) for u in ucmds for S, k in ((0, 0), (1, 0), (0, 1), (1, 1))]
+        # the same whatever the DEFAULT transport is called: the target at hand is served by the (scripted) in-band transport,
+        # as a `-w other:host` target of a `-R exec` run is; its status can only come back through the marker
+        cops += ["cmd %d %d %s %s" % (S, k, hexs(u), R) for u, _ in safe[:4] for S, k in ((1, 0), (0, 1), (0, 0))
+                 for R in ("exec", "rsh", "ssh", "nosuch")]
         impl = run_batch([exe], [[o] for o in cops], env=env, timeout=300)
-        mod = ctx.model("exit", "".join(o + "\n" for o in cops), args=["model", bits])
+        mod = ctx.model("exit", "".join(" ".join(o.split(" ")[:4]) + "\n" for o in cops), args=["model", bits])
         for o, (ans, crash), m in zip(cops, impl, mod):
             cov["evaluations"] += 1
             dist["sent_command"] = dist.get("sent_command", 0) + 1
@@ -787,6 +795,9 @@ def run(ctx):
                 if sp != "ok":
                     bad.append((s, " ".join(av), ml_, "exit %d" % rc, spl, exit_of(m) == rc))
             report_bad(ctx, bad, bits, "pdsh")
+            # a REAL in-band transport (harness/exit_inband_mod.c) next to exec, both as default and as per-target prefix;
+            # a line longer than the relay buffer in front of the marker line (vlib/exitmixed.py)
+            exitmixed.run(ctx, repo, pdsh, helper, bits, magic, dist, cov, distinct, report_bad)
             # every refusal path of main / opt.c / module loading / dsh()'s prologue (vlib/exitrefuse.py)
             exitrefuse.run(ctx, repo, bits, dist, cov, distinct)
             # -k through the real binary: the siblings leave start / term traces
@@ -879,7 +890,9 @@ def replay(ctx, cov, exe, repo, magic, bits, env):
         ctx.log("replay file names no input (theorem/correspondence only): running the whole check instead")
         ctx.replay = None
         return run(ctx)
-    if "refusal_label" in case:
+    if "mixed_case" in case:
+        exitmixed.run(ctx, repo, pdsh, helper, bits, magic, {}, cov, set(), report_bad, only=exitmixed.case_from_json(case["mixed_case"]))
+    elif "refusal_label" in case:
         exitrefuse.run(ctx, repo, bits, {}, cov, set(), only=case["refusal_label"])
     elif "k_scn" in case:
         exitkill.run_scripted(ctx, exe, env, [exitkill.scn_from_json(case["k_scn"])], bits, {}, cov, set())
@@ -905,7 +918,7 @@ def replay(ctx, cov, exe, repo, magic, bits, env):
     elif str(case.get("op", "")).startswith("cmd "):
         o = case["op"]
         (ans, crash), = run_batch([exe], [[o]], env=env, timeout=60)
-        m = ctx.model("exit", o + "\n", args=["model", bits])[0]
+        m = ctx.model("exit", " ".join(o.split(" ")[:4]) + "\n", args=["model", bits])[0]
         ctx.log("replay: %s impl `%s` model `%s`" % (o[:80], ans, m))
         if crash is not None or not ans:
             ctx.offender("crash", "dsh() harness aborts on %s" % o[:80], case)
@@ -1037,7 +1050,8 @@ def report_bad(ctx, bad, bits, where):
         ctx.offender("%s:needs-fix:%s" % (flags, fixset),
                      "%s with flags -%s and outcomes [%s] ends with `%s`, which the specification does not admit "
                      "(smallest set of proposed repairs that makes it admissible: %s)" % (where, flags, outs, ans, fixset),
-                     {"where": where, "case": h, "model_op": m_in, "impl": ans, "spec_query": spl})
+                     dict({"where": where, "case": h, "model_op": m_in if len(m_in) < 4000 else m_in[:300] + "...", "impl": ans,
+                           "spec_query": spl}, **s.get("extra", {})))
 
 
 def exhaustive_vectors():
